@@ -397,6 +397,29 @@ func checkC18(c C18Case, st *evid.Stats) error {
 			if out.DispWriter != txt {
 				return failf("help of %s through the help option differs from Help():\n%q\nvs\n%q", l.Path, out.DispWriter, txt)
 			}
+			// the same with other options set on that command line: declared defaults, not current values
+			var setters []string
+			for _, vo := range l.VisibleOpts() {
+				o := vo.Spec
+				if vo.Help || o.Kind.IsFlag() || len(o.Valid) > 0 || len(setters) >= 4 {
+					continue
+				}
+				v := map[byte]string{'s': "v1", 'i': "41", 'f': "4.5", 'm': "kk=vv"}[o.Kind.Elem()]
+				setters = append(setters, "--"+o.Name+"="+v)
+				for j := 1; j < o.Min; j++ {
+					setters = append(setters, v)
+				}
+			}
+			if len(setters) > 0 {
+				argv := append(append(append([]string{}, path...), setters...), "--"+c.Spec.Help)
+				out := Run(c.Spec, argv, RunOpts{Dispatch: true})
+				if out.Panic != "" {
+					return failf("panic: %s", out.Panic)
+				}
+				if !out.ParseFailed && out.DispIsHelp && out.DispWriter != txt {
+					return failf("help of %s requested on a command line that also sets options (%s) differs from Help() (defaults must be the declared ones):\n%q\nvs\n%q", l.Path, q(argv), out.DispWriter, txt)
+				}
+			}
 		}
 		out := Run(c.Spec, append(append([]string{}, path...), c.Spec.Help), RunOpts{Dispatch: true})
 		if out.Panic != "" {
